@@ -88,6 +88,22 @@ fn items(tier: Tier) -> &'static Vec<Item> {
                 }
             }
             v.push(Item { conv: ci, split: Split::Bytewise });
+            if deep(tier) && n > 120 && n <= 200 {
+                for a in 1..n {
+                    for b in a + 1..n {
+                        v.push(Item { conv: ci, split: Split::Cuts(vec![a, b]) });
+                    }
+                }
+            }
+            if deep(tier) && n <= 45 {
+                for a in 1..n {
+                    for b in a + 1..n {
+                        for c in b + 1..n {
+                            v.push(Item { conv: ci, split: Split::Cuts(vec![a, b, c]) });
+                        }
+                    }
+                }
+            }
             if full(tier) {
                 if n <= 120 {
                     for a in 1..n {
